@@ -421,7 +421,8 @@ impl Network {
         let mut latest_datetime = DateTime::Earliest;
 
         // add overflow depot:
-        // its has infinity capacity for all types (i.e., service trips * maximal_formation_count)
+        // its has infinity capacity for all types (i.e., service trips * maximal_formation_count
+        // + maintenance tracks: every track can require a vehicle of its own)
         // but it is located Nowhere, i.e. Distance is Infinity to all other locations
         let number_of_service_nodes = service_trips.values().map(|vec| vec.len()).sum::<usize>();
         let max_formation_count = vehicle_types
@@ -435,8 +436,15 @@ impl Network {
             })
             .max()
             .unwrap_or(1);
-        let overflow_capacity =
-            (number_of_service_nodes as VehicleCount).saturating_mul(max_formation_count);
+        let overflow_capacity = (number_of_service_nodes as VehicleCount)
+            .saturating_mul(max_formation_count)
+            .saturating_add(
+                maintenance_slots
+                    .iter()
+                    .map(|slot| slot.track_count() as u64)
+                    .sum::<u64>()
+                    .min(VehicleCount::MAX as u64) as VehicleCount,
+            );
         let overflow_depot_id = DepotIdx::from(depots.len() as Idx);
         let overflow_depot = Depot::new(
             overflow_depot_id,
